@@ -527,7 +527,8 @@ def _wrap_populate(cls, obs):
                 (a[0] if (a and cls.__name__ in ("AnalyticProposal", "RejectionProposal")) else getattr(self, "poolsize", None))
         ev = {"cls": type(self).__name__, "n": int(n), "N": int(N) if N is not None else -1,
               "ids": pids(smp, obs.names) if n else [],
-              "indices_perm": sorted(map(int, self.indices)) == list(range(n))}
+              "indices_perm": sorted(map(int, self.indices)) == list(range(n)),
+              "accumulate": bool(getattr(self, "accumulate_weights", False))}
         if n and obs.check_pool_values:
             obs.in_observer = True
             try:
